@@ -11,6 +11,7 @@ import (
 	"os/exec"
 	"path/filepath"
 	"strings"
+	"sync"
 	"syscall"
 	"time"
 
@@ -401,22 +402,36 @@ func c20CLI() vh.Unit {
 		done := make(chan int, len(cases))
 		for i, c := range cases {
 			go func(i int, c tc) {
-				cmd := exec.Command(bin, "agent", "--rpc", "fakenode://"+id.NodeID+"@x", "--nodekey", keyfile, "--update-interval="+c.s, ":memory:")
+				cmd := exec.Command(bin, "-vv", "agent", "--rpc", "fakenode://"+id.NodeID+"@x", "--nodekey", keyfile, "--update-interval="+c.s, ":memory:")
 				cmd.Env = append(os.Environ(), "HOME="+dir)
 				cmd.SysProcAttr = &syscall.SysProcAttr{Setpgid: true, Pdeathsig: syscall.SIGKILL}
-				var out strings.Builder
+				var out lockedBuf
 				cmd.Stdout, cmd.Stderr = &out, &out
 				cmd.Start()
 				exited := make(chan struct{})
 				go func() { cmd.Wait(); close(exited) }()
+				// a refused interval makes the process exit; an accepted one makes it register with
+				// the (in-process) pool and say so. No verdict from mere slowness: wait for either.
+				alive := false
+				for waited := 0; waited < 3000; waited++ {
+					select {
+					case <-exited:
+					case <-time.After(100 * time.Millisecond):
+						if s := out.String(); strings.Contains(s, "Registered on pool") || strings.Contains(s, "Pool update") {
+							alive = true
+						} else {
+							continue
+						}
+					}
+					break
+				}
 				select {
 				case <-exited:
-					results[i] = result{c, false, out.String()}
-				case <-time.After(2500 * time.Millisecond):
+				default:
 					syscall.Kill(-cmd.Process.Pid, syscall.SIGKILL)
 					<-exited
-					results[i] = result{c, true, out.String()}
 				}
+				results[i] = result{c, alive, out.String()}
 				done <- i
 			}(i, c)
 		}
@@ -463,4 +478,22 @@ func init() {
 			return us
 		},
 	})
+}
+
+// lockedBuf is a concurrency-safe output buffer for a child process.
+type lockedBuf struct {
+	mu sync.Mutex
+	b  strings.Builder
+}
+
+func (l *lockedBuf) Write(p []byte) (int, error) {
+	l.mu.Lock()
+	defer l.mu.Unlock()
+	return l.b.Write(p)
+}
+
+func (l *lockedBuf) String() string {
+	l.mu.Lock()
+	defer l.mu.Unlock()
+	return l.b.String()
 }
